@@ -44,18 +44,67 @@ def _uniq(paths, out):
     return n
 
 
+def _selftest_case(ctx, cases, tag, pick, perturb, name):
+    """Binding self-test: the first case `pick` accepts, with its expectation
+    changed by `perturb`, must be reported by the executor."""
+    with open(cases) as f:
+        for line in f:
+            o = json.loads(line)
+            if pick(o):
+                perturb(o)
+                o.pop("dev", None)
+                bad = os.path.join(ctx.work, "selftest-%s.ndjson" % tag)
+                with open(bad, "w") as g:
+                    g.write(json.dumps(o) + "\n")
+                rc, out, err, _ = ctx.run_bin("replay_server", ["--open-devs", ""], stdin_path=bad)
+                ctx.selftest(name, "FAIL " in out)
+                return
+    raise vlib.ToolError("binding self-test %s: no suitable case generated" % tag)
+
+
 def run(ctx):
     thorough = ctx.tier == "thorough"
     suf = "_thorough" if thorough else ""
     ctx.build("replay_server", "record_server")
 
     # ---- 1. TLC decides the property on the specification (Dev = {}) ----
-    mc = ctx.tlc("MC_ServerSize", "MC_ServerSize" + suf, workers=8, label="mc-size")
+    # (every TLC run of parts 1, 1b, 1c also emits each enumerated evaluation
+    # as one implementation case for stage 2)
+    size_cases = os.path.join(ctx.work, "size.ndjson")
+    mc = ctx.tlc("MC_ServerSize", "MC_ServerSize" + suf, workers=8, label="mc-size", cases_to=size_cases)
+    n_size = mc.ncases
     ctx.require_ok(mc, "MC_ServerSize")
     ctx.require_actions(mc, ["Init", "Next"])
     vac = ctx.tlc("MC_ServerSize", "MC_ServerSize_vac", workers=2, label="mc-size-vacuity",
                   expect_violation="SomeTruncated", count=False, coverage=False)
     ctx.require_ok(vac, "truncation occurs in the enumerated space")
+    # part 1c: how a response comes to be (builder route x recipe x layout of
+    # the additional section x octets type x service route x EDNS switch):
+    # the frame is right whatever the last builder operation was
+    route_cases = os.path.join(ctx.work, "size-routes.ndjson")
+    mc = ctx.tlc("MC_ServerSize", "MC_ServerSizeRoutes" + suf, workers=8, label="mc-size-routes",
+                 cases_to=route_cases)
+    n_route = mc.ncases
+    ctx.require_ok(mc, "MC_ServerSizeRoutes")
+    ctx.require_actions(mc, ["Init", "Next"])
+    for inv in ["SomeCutLast", "SomeStripped"]:
+        vac = ctx.tlc("MC_ServerSize", "MC_ServerSizeRoutes_vac_" + inv, workers=2,
+                      label="mc-size-routes-vacuity-" + inv, expect_violation=inv,
+                      count=False, coverage=False)
+        ctx.require_ok(vac, "stream responses whose last builder operation is a cut occur (%s)" % inv)
+    # part 1b: what the stack decides before the service sees a request, for
+    # every configuration of the three middleware services x hostile request
+    # shape x COOKIE form x timestamp distance around the serial circle
+    pre_cases = os.path.join(ctx.work, "pre.ndjson")
+    mc = ctx.tlc("MC_ServerPre", "MC_ServerPre" + suf, workers=8, label="mc-pre", cases_to=pre_cases)
+    n_pre = mc.ncases
+    ctx.require_ok(mc, "MC_ServerPre")
+    ctx.require_actions(mc, ["Init", "Next"])
+    for inv in ["SomeValid", "SomeBadCookie", "SomeEarly"]:
+        vac = ctx.tlc("MC_ServerPre", "MC_ServerPre_vac_" + inv, workers=2,
+                      label="mc-pre-vacuity-" + inv, expect_violation=inv,
+                      count=False, coverage=False)
+        ctx.require_ok(vac, "the enumerated requests reach every verdict (%s)" % inv)
     # quick: pipelines <= 2, queue capacity 1, services single/stream2
     # (both with frames written in two pieces);
     # thorough: pipelines <= 3 (single) and pipelines <= 2 with all service
@@ -101,10 +150,8 @@ def run(ctx):
         ctx.require_ok(r, "deviation %s breaks the property on the model" % d)
 
     # ---- 2. S->I: size cases through the real middleware stack ----
-    size_cases = os.path.join(ctx.work, "size.ndjson")
-    n = _gen(ctx, "MC_ServerSize", "Gen_ServerSize" + suf, size_cases, "gen-size")
-    if n < 1000:
-        raise vlib.ToolError("size generator produced too few cases (%d)" % n)
+    if n_size < 1000:
+        raise vlib.ToolError("size generator produced too few cases (%d)" % n_size)
     head = os.path.join(ctx.work, "head.ndjson")
     with open(size_cases) as f, open(head, "w") as g:
         for i, line in enumerate(f):
@@ -114,6 +161,54 @@ def run(ctx):
     rc, out, err, _ = ctx.run_bin("replay_server", ["--selftest-perturb"], stdin_path=head)
     ctx.selftest("perturbed expectation is reported by replay_server", "FAIL " in out)
     ctx.replay_cases("replay_server", size_cases, label="size")
+    # ... builder routes / recipes / layouts / octets types / service_fn / enable
+    if n_route < 10000:
+        raise vlib.ToolError("route generator produced too few cases (%d)" % n_route)
+    _selftest_case(ctx, route_cases, "routes",
+                   lambda o: (not o["in"]["udp"]) and o["in"]["recipe"] == "rewind",
+                   lambda o: o["exp"].__setitem__("frame", o["exp"]["frame"] + 15),
+                   "stream response announced 15 octets too long is reported by replay_server")
+    ctx.replay_cases("replay_server", route_cases, label="size-routes")
+    # ... and as deployed: DgramServer / StreamServer on the operating system's
+    # loopback sockets under a multi-thread runtime, each case followed by a
+    # plain request on the same socket / pipelined on the same connection
+    sock_cases = os.path.join(ctx.work, "size-sock.ndjson")
+    n = _gen(ctx, "MC_ServerSize", "Gen_ServerSizeSock" + suf, sock_cases, "gen-size-sock")
+    if n < 500:
+        raise vlib.ToolError("socket case generator produced too few cases (%d)" % n)
+    _selftest_case(ctx, sock_cases, "sock",
+                   lambda o: (not o["in"]["udp"]) and o["in"]["recipe"] == "rewind",
+                   lambda o: o["exp"].__setitem__("then", "misframed"),
+                   "a wrong expectation about the follow-up request on a real connection is reported")
+    ctx.replay_cases("replay_server", sock_cases, label="size-sock")
+
+    # ---- 2b. S->I: every request shape through every stack configuration ----
+    if n_pre < 5000:
+        raise vlib.ToolError("pre generator produced too few cases (%d)" % n_pre)
+    # the generated requests really go all around the serial circle: server
+    # cookies numerically later than the clock yet expired in RFC 1982 terms,
+    # on both transports, with a right and a wrong hash
+    far = set()
+    with open(pre_cases) as f:
+        for line in f:
+            o = json.loads(line)
+            ck = o["in"]["req"]["ck"]
+            if ck["form"] == "std" and ck["d"][0] >= 32768 and ck["d"][0] < 49152 and o["in"]["cfg"]["ck_on"] \
+                    and o["in"]["req"]["nopt"] == 1:
+                far.add((o["in"]["udp"], ck["hash"], o["exp"]["by"]))
+    if len(far) < 8:
+        raise vlib.ToolError("vacuity: far-away cookie timestamps are not generated on every path: %s" % sorted(far))
+    _selftest_case(ctx, pre_cases, "pre-far",
+                   lambda o: o["in"]["req"]["ck"]["form"] == "std" and o["in"]["req"]["ck"]["d"] == [32768, 7200]
+                   and o["exp"]["rcode"] == 23,
+                   lambda o: o["exp"].__setitem__("rcode", 0),
+                   "wrong rcode for a far-away server cookie is reported by replay_server")
+    _selftest_case(ctx, pre_cases, "pre-by",
+                   lambda o: o["in"]["req"]["ck"]["form"] == "std" and o["in"]["req"]["ck"]["hash"] == "ok"
+                   and o["in"]["cfg"]["denied"] and o["in"]["udp"] and o["exp"]["by"] == "service",
+                   lambda o: o["exp"].__setitem__("by", "inner"),
+                   "a valid cookie that does not reach the service is reported by replay_server")
+    ctx.replay_cases("replay_server", pre_cases, label="pre")
 
     # ---- 3. S->I: behaviours of the connection / datagram machines ----
     parts = []
@@ -124,7 +219,11 @@ def run(ctx):
         parts.append(p)
     sims = [("Gen_ServerConn", 1200 if thorough else 300, 1),
             ("Gen_ServerConn_q2", 600 if thorough else 150, 2),
-            ("Gen_ServerDgram", 200 if thorough else 50, 3)]
+            ("Gen_ServerDgram", 200 if thorough else 50, 3),
+            # service kinds that say what the request / the answer's last
+            # builder operations look like (stripped OPT, rolled-back pushes,
+            # hostile COOKIE options, ServiceError kinds) on the real servers
+            ("Gen_ServerConn_kinds", 400 if thorough else 100, 4)]
     if not thorough:
         # capacity 2 is covered by the directed scenarios in the quick tier
         sims = [x for x in sims if x[0] != "Gen_ServerConn_q2"]
